@@ -15,17 +15,17 @@ Piece(bp, t) ==
        ELSE CHOOSE i \in 1..n : RLe(bp[i], t) /\ RLt(t, bp[i + 1])
 
 \* coefficient polynomial of piece i (1-based), coordinate col, nc coefficients per piece
-PiecePoly(C, nc, i, col) == TLCEval([k \in 1..nc |-> C[(i - 1) * nc + k][col]])
+PiecePoly(C, nc, i, col) == Force([k \in 1..nc |-> C[(i - 1) * nc + k][col]])
 \* exact k-th derivative at global time t (all coordinates); zero when k >= nc
 EvalAt(bp, C, nc, t, k) ==
     LET i == Piece(bp, t)
         tau == RSub(t, bp[i])
-    IN [col \in 1..Len(C[1]) |-> IF k >= nc THEN Zero ELSE PolyEvalD(PiecePoly(C, nc, i, col), tau, k)]
+    IN Force([col \in 1..Len(C[1]) |-> IF k >= nc THEN Zero ELSE PolyEvalD(PiecePoly(C, nc, i, col), tau, k)])
 \* magnitude the Horner evaluation is assembled from: sum_j |ff(j,k) c_j tau^(j-k)|
 EvalAbsAt(bp, C, nc, t, k) ==
     LET i == Piece(bp, t)
         tau == RSub(t, bp[i])
-    IN [col \in 1..Len(C[1]) |-> IF k >= nc THEN Zero ELSE PolyAbsEval(PolyDeriv(PiecePoly(C, nc, i, col), k), tau)]
+    IN Force([col \in 1..Len(C[1]) |-> IF k >= nc THEN Zero ELSE PolyAbsEval(PolyDeriv(PiecePoly(C, nc, i, col), k), tau)])
 \* local-time evaluation of a given piece
 EvalLocal(C, nc, i, tau, k) ==
     [col \in 1..Len(C[1]) |-> IF k >= nc \/ k < 0 THEN Zero ELSE PolyEvalD(PiecePoly(C, nc, i, col), tau, k)]
